@@ -493,6 +493,7 @@ impl World {
             }
             Op::SetAuto(f) => self.op_set_auto(*f),
             Op::Fork => self.op_fork(),
+            Op::Construct(k) => self.op_construct(*k),
             Op::EqTwin(v) => self.op_eq_twin(*v),
             Op::RebuildMoves => self.op_rebuild_moves(),
             Op::RebuildUci => self.op_rebuild_uci(),
@@ -535,7 +536,7 @@ impl World {
                 }
             }
             Op::SetAuto(_) | Op::QueryOutcome => &[C14],
-            Op::RebuildMoves | Op::Fork | Op::EqTwin(_) => &[C13],
+            Op::RebuildMoves | Op::Fork | Op::EqTwin(_) | Op::Construct(_) => &[C13],
             Op::RebuildUci | Op::Read(_) => &[C17],
             Op::S(_, SOp::TryRaw(_)) | Op::S(_, SOp::Functional(_)) => &[C02],
             Op::S(_, _) => &[C04],
@@ -1385,6 +1386,61 @@ impl World {
     }
 
     // -------------------------------------------------------------- fork / eq / rebuild
+
+    /// The same empty chain through another constructor; everything observable must be the
+    /// same whichever constructor produced the object.
+    fn op_construct(&mut self, k: u8) -> R {
+        if self.rc.len() != 0 || self.rc.outcome.is_some() {
+            return Ok(Exec::Skipped);
+        }
+        let start = match Board::try_from(self.rc.start) {
+            Ok(b) => b,
+            Err(_) => return Ok(Exec::Skipped),
+        };
+        let is_initial = self.rc.start == RawBoard::initial();
+        let fresh: MoveChain = match k % 5 {
+            0 => MoveChain::new(start.clone()),
+            1 => match MoveChain::from_fen(&pos_of(&start).to_fen()) {
+                Ok(c) => c,
+                Err(_) => return Ok(Exec::Skipped),
+            },
+            2 => match MoveChain::from_uci_list(start.clone(), "") {
+                Ok(c) => c,
+                Err(_) => return Ok(Exec::Skipped),
+            },
+            3 if is_initial => MoveChain::new_initial(),
+            4 if is_initial => MoveChain::default(),
+            _ => return Ok(Exec::Skipped),
+        };
+        if *fresh.startpos() != self.rc.start {
+            // the constructor went through text and the text round trip is not this property's
+            // business: keep the chain we have
+            return Ok(Exec::Skipped);
+        }
+        let spy: BaseMoveChain<SpyRepeat> = match k % 5 {
+            2 => match BaseMoveChain::from_uci_list(start.clone(), "") {
+                Ok(c) => c,
+                Err(_) => return Ok(Exec::Skipped),
+            },
+            3 if is_initial => BaseMoveChain::new_initial(),
+            4 if is_initial => BaseMoveChain::default(),
+            _ => BaseMoveChain::new(start.clone()),
+        };
+        if self.on(C13) && !(fresh == self.chain) {
+            return Err(self.fail(
+                C13,
+                "equality",
+                format!("an empty chain built through constructor {} does not compare equal to MoveChain::new of the same start", k % 5),
+            ));
+        }
+        self.chain = fresh;
+        self.spy = spy;
+        self.spy_seen = 0;
+        self.invalidate();
+        self.stats.hit("op.construct");
+        self.expect_spy(&[SpyEv::Push(self.rc.keys[0].clone())])?;
+        Ok(Exec::Done)
+    }
 
     fn op_fork(&mut self) -> R {
         if self.parked.len() >= 3 {
